@@ -186,7 +186,9 @@ theorem pushGuard_cases {s : Server} {f : Flight} {p : List ChangeReq} (h : push
       · injection h with h; exact Or.inl h.symm
       · split at h
         · simp at h
-        · injection h with h; exact Or.inr h.symm
+        · split at h
+          · injection h with h; exact Or.inl h.symm
+          · injection h with h; exact Or.inr h.symm
   · injection h with h; exact Or.inr h.symm
 
 theorem dpOf_docs_set {s s' : Server} {d : DocId} {doc x : Doc} (hfd : s.findDoc d = some doc)
